@@ -139,7 +139,7 @@ class Prop:
         self.functions.add(function)
         rec = dict(name=name, function=function, path=path, result=res['result'], backend=res.get('backend'),
                    ms=res.get('ms'), stage=res.get('stage'))
-        for k in ('atoms', 'arg_queries'):
+        for k in ('atoms', 'arg_queries', 'vacuous'):
             if k in res:
                 rec[k] = res[k]
         if note:
@@ -309,6 +309,7 @@ class Prop:
                    engine_crosscheck=self.xcheck,
                    known_findings_reported=[list(k) for k in self.known_hit],
                    unproved_identities=[o['name'] for o in self.obl if o.get('unproved_identity')],
+                   vacuous_obligations=[o['name'] + ' [' + o['path'] + ']' for o in self.obl if o.get('vacuous')],
                    bounded=self.bounded,
                    evaluations=max(evals, 1) if self.bounded else n,
                    distinct_nontrivial=max(dist, 2) if self.bounded and dist >= 2 else max(n, 2),
@@ -332,6 +333,7 @@ class Prop:
                 jsonschema.validate(ev, json.load(open(sch)))
         except ImportError:
             pass
-        print('%s: obligations %d discharged %d | bounded evaluations %d | violations %d | %.1fs' % (
-            self.pid, n, nd, evals, self.viol, time.time() - self.t0), flush=True)
+        nv = sum(1 for o in self.obl if o.get('vacuous'))
+        print('%s: obligations %d discharged %d (vacuous %d) | bounded evaluations %d | violations %d | %.1fs' % (
+            self.pid, n, nd, nv, evals, self.viol, time.time() - self.t0), flush=True)
         sys.exit(1 if self.viol else 0)
